@@ -44,6 +44,13 @@ SHADOW_VEC = [
     "v5/codec/packet/subscribe.rs",
 ]
 
+# topic.rs: capacity-8 instance, plus the `vec!` macro (one non-test use, `vec![]`) by a
+# module-local macro_rules of the same name (textual scope wins over the prelude macro)
+SHADOW_VEC8 = ["topic.rs"]
+VEC8_LINES = (
+    "\n#[cfg(kani)]\n#[allow(unused_imports)]\nuse crate::mvec8::Vec;\n"
+)
+
 # files of the repository that the slice compiles (everything a verdict depends on)
 SLICE_FILES = [
     "utils.rs", "types.rs", "error.rs", "topic.rs", "version.rs", "inflight.rs",
@@ -121,6 +128,11 @@ def weave_kani():
         with open(p, "a") as f:
             f.write(line)
         appended[rel] = appended.get(rel, "") + line
+    for rel in SHADOW_VEC8:
+        p = os.path.join(stage, "src", rel)
+        with open(p, "a") as f:
+            f.write(VEC8_LINES)
+        appended[rel] = appended.get(rel, "") + VEC8_LINES
     # the one crate-level constant the v5 codec refers to outside the slice
     with open(os.path.join(REPO, "src", "v5", "mod.rs")) as f:
         m = re.search(r"^const RECEIVE_MAX_DEFAULT:[^;]*;", f.read(), re.M)
@@ -187,7 +199,9 @@ def weave_replay():
     vk = os.path.join(HARN, "support", "vk_replay.rs")
     # lint levels do not change behaviour; harness code is not written to clippy::pedantic
     txt = txt.replace("#![deny(", "#![allow(unexpected_cfgs, dead_code, unused_imports, unused_macros, unused_variables)]\n#![allow(", 1)
-    inject = f'#[cfg(verif_replay)]\n#[macro_use]\n#[path = "{vk}"]\npub(crate) mod vk;\n'
+    vh = os.path.join(HARN, "support", "vh.rs")
+    inject = (f'#[cfg(verif_replay)]\n#[macro_use]\n#[path = "{vk}"]\npub(crate) mod vk;\n'
+              f'#[cfg(verif_replay)]\n#[path = "{vh}"]\npub(crate) mod vh;\n')
     if "mod topic;" not in txt:
         raise SystemExit("weave_replay: anchor `mod topic;` not found in lib.rs")
     txt = txt.replace("mod topic;", inject + "mod topic;", 1)
